@@ -130,3 +130,17 @@ Theorem C04_code_joint_end_to_end : forall (W K : nat) (Ts : list nat) (labels :
     /\ pad_front W = ((W - 1) / 2)%nat /\ pad_back W = ((W - 1) - (W - 1) / 2)%nat.
 Proof. exact joint_front_end_C04. Qed.
 Print Assumptions C04_code_joint_end_to_end.
+
+(* ---- END TO END for the single-series front end AS TRANSLATED (Proofs/InterpSingle.v): the skeleton of ticc_labels interpreted by the
+   hand model, the main loop answering any labelling of the right length and range: exactly T labels, the first floor((W-1)/2) and
+   the last (W-1)-floor((W-1)/2) of them -1, the rest the main loop's labels in [0, K) ---- *)
+From Ticc Require Import Gen.G_front_single Proofs.InterpSingle.
+Theorem C04_code_single_end_to_end : forall (W T K : nat) (labels : list Z) (data lam beta lim eps procs m biased : val),
+  (1 <= W)%nat -> (W <= T)%nat -> length labels = (T + 1 - W)%nat -> Forall (in_range K) labels ->
+  exists (padded : list Z) (log' : list (event val)),
+    g_ticc_labels val getattr (oracle_single W T K labels) data (VInt (Z.of_nat W)) (VInt (Z.of_nat K)) lam beta lim eps procs m biased []
+    = (Ret (VMaster W padded), log')
+    /\ margin_ok W K T padded /\ length padded = T
+    /\ pad_front W = ((W - 1) / 2)%nat /\ pad_back W = ((W - 1) - (W - 1) / 2)%nat.
+Proof. exact single_front_end_C04. Qed.
+Print Assumptions C04_code_single_end_to_end.
